@@ -8,7 +8,7 @@
    particular no genericity: repeated and zero eigenvalues are covered. *)
 From Coq Require Import String List Reals.
 Import ListNotations.
-From FV.C17 Require Import Model ProofsSym ProofsPoly ProofsEig ProofsAlign.
+From FV.C17 Require Import Model ProofsSym ProofsPoly ProofsEig ProofsAlign ProofsPlace.
 From FV.C17.gen Require Import TensorIdx.
 Open Scope R_scope.
 
@@ -109,18 +109,23 @@ Theorem C17_lte_names_link :
   convert_lte_local2global_writes = convert_lte_global2local_reads.
 Proof. split; reflexivity. Qed.
 
-(* ---- sparse alignment (hand model of the scipy operations; exact arithmetic) ----
-   for every list of same-shape matrices in canonical CSR form (ascending flat
-   keys), whatever their patterns, signs and stored zeros: align_nnz succeeds,
-   returns one matrix per input, all with the same ascending pattern = the union
-   of the input patterns, and every entry (stored or not) keeps its value *)
+(* ---- sparse alignment ----
+   Model.align_nnz mirrors femio's align_nnz as of /repo 0213dd3 (hand model;
+   tie = correspondence): ascending union pattern, searchsorted, np.add.at.
+   For EVERY list of matrices in ANY storage (unsorted keys, duplicated keys,
+   stored zeros, any signs; no premise): it succeeds, returns one matrix per
+   input, all on the same ascending pattern = the union of the stored
+   patterns, and every key (stored or not) carries the sum of what the input
+   stores under it - i.e. exactly the stored value when the input's keys are
+   distinct (canonical CSR): the exact-arithmetic specification. *)
 Theorem C17_align_nnz_values :
-  forall (size : Z) (Ms : list (smatrix R)), Forall swf Ms ->
-  exists As, align_nnz ROps size Ms = Some As /\ length As = length Ms /\
+  forall (Ms : list (smatrix R)),
+  exists As, align_nnz ROps Ms = Some As /\ length As = length Ms /\
     forall i M A, nth_error Ms i = Some M -> nth_error As i = Some A ->
       swf A /\
       (forall key, In key (skeys A) <-> exists M', In M' Ms /\ In key (skeys M')) /\
-      (forall key, sget ROps A key = sget ROps M key).
+      (forall key, sget ROps A key = ssum ROps M key) /\
+      (NoDup (skeys M) -> forall key, sget ROps A key = sget ROps M key).
 Proof. exact align_nnz_values. Qed.
 
 (* ---- no in-place write reaches a caller-owned array (translator's
